@@ -330,7 +330,11 @@ func (e *Engine) cellDefinitelyStored(v VPath, cell *Term, A Assign, sub map[str
 			}
 			forced := true
 			for _, f := range q.Facts {
-				val, known := A(f.Atom.Subst(gsub))
+				at := f.Atom.Subst(gsub)
+				val, known := staticAtom(at) // e.g. the nil test of an argument that is a fresh error on this path
+				if !known {
+					val, known = A(at)
+				}
 				if !known || val != f.Pol {
 					forced = false
 					break
